@@ -204,6 +204,21 @@ def check(ctx):
                detail="" if ok2 else "a sender registers without having tried send_nowait in the same atomic section", node=st,
                by=("@exc=WouldBlock",))
 
+    # once the wait is over the receiver's slot decides: receive() returns what was put there, or reports EndOfStream when nothing
+    # was (AttributeError on the empty slot); any other exit after a completed wait would drop an item a sender was told was delivered
+    def step_aw(st, e, c):
+        if e == "wait" and not c.is_exc:
+            return True
+        return st
+
+    def at_exit_aw(kind, st, facts):
+        if st and kind.startswith("raise:") and kind != "raise:EndOfStream":
+            return f"receive() leaves by {kind[6:]} after its wait completed: an item handed to its slot in the meantime is lost"
+        return None
+
+    ctx.paths("R12-f", recv, [("wait", "await $E.wait()")], step_aw, False, at_exit_aw, instance="after a completed wait receive() returns the slot's item or EndOfStream",
+              native=False)
+
     # ---- R12-g wake-up is not overtaken by cancellation ----------------------------------------------------------
     waiter_guard(ctx, "R12-g", "a task whose wake-up future already completed is not cancelled")
 
